@@ -19,6 +19,13 @@
 (*                  observation (reported value, count n) is recorded again *)
 (*                  as n observations of that value - for every n.          *)
 (*                                                                         *)
+(* The count argument below rests on the counters being the ONLY state a    *)
+(* drain trusts.  Any per-histogram auxiliary summary (a high-water mark, a *)
+(* non-empty flag, a cached total) that drain consults must be maintained   *)
+(* atomically w.r.t. the other recorders: HistogramAux.tla (positive model  *)
+(* with fetch_max, negative model with load/compare/store) and the          *)
+(* short-lived-histogram races of `hist race` cover that.                   *)
+(*                                                                         *)
 (* Property layer (what C11 says): Conservation, Quiescent, Ascending,      *)
 (* FixedPoint below.                                                        *)
 (***************************************************************************)
